@@ -96,49 +96,56 @@ static void mode_shift() {
         int it = 1 + (int)(c % 4);
         bool ykick = (c / 4) % 2;
         int flavour = (int)r.range(0, 3);
+        uint32_t nb = (c % 3 == 2) ? (uint32_t)r.range(2, 3) : 1;    // a third of the cases: trains (per-bunch displacement fields)
         {
-            std::ostringstream d; d << "shift n=" << n << " it=" << it << " axis=" << (ykick ? "y" : "x") << " flavour=" << flavour;
+            std::ostringstream d; d << "shift n=" << n << " nb=" << nb << " it=" << it << " axis=" << (ykick ? "y" : "x") << " flavour=" << flavour;
             M.begin_case(c, d.str());
         }
-        vh::set_grid(n, 1);
-        auto in = vh::make_ps(-6, 6, -6, 6, {1.0f});
-        auto out = vh::make_ps(-6, 6, -6, 6, {1.0f});
+        vh::set_grid(n, nb);
+        std::vector<integral_t> fill(nb, 1.0f / nb);
+        auto in = vh::make_ps(-6, 6, -6, 6, fill);
+        auto out = vh::make_ps(-6, 6, -6, 6, fill);
         KickMap km(in, out, (SourceMap::InterpolationType)it, false,
                    ykick ? KickMap::Axis::y : KickMap::Axis::x, nullptr);
-        std::vector<float> data = random_data(r, (size_t)n * n, flavour);
+        const size_t nn = (size_t)n * n;
+        std::vector<float> data = random_data(r, nn * nb, flavour);
         std::copy(data.begin(), data.end(), in->getData());
         const int dmin = -(int)(n / 2), dmax = (int)n - (int)(n / 2) - 1;
-        // every uniform displacement that fits, then per-row random displacements
+        // every uniform displacement that fits, then per-row (and per-bunch) random displacements
         int nrounds = (dmax - dmin + 1) + 4;
         for (int round = 0; round < nrounds; round++) {
-            std::vector<float> off(n);
-            std::vector<int> dd(n);
-            for (uint32_t k = 0; k < n; k++) {
-                dd[k] = (round <= dmax - dmin) ? dmin + round : (int)r.range(dmin, dmax);
-                off[k] = (float)dd[k];
+            std::vector<float> off((size_t)n * nb);
+            std::vector<int> dd((size_t)n * nb);
+            for (uint32_t b = 0; b < nb; b++) for (uint32_t k = 0; k < n; k++) {
+                int v = (round <= dmax - dmin) ? dmin + round : (int)r.range(dmin, dmax);
+                // the x kick has one field for all bunches (KickMap reads the first block); the y kick one per bunch
+                if (!ykick && b > 0) v = dd[k];
+                dd[(size_t)b * n + k] = v; off[(size_t)b * n + k] = (float)v;
             }
             km.swapOffset(off);
-            std::fill(out->getData(), out->getData() + (size_t)n * n, 123.0f);
+            std::fill(out->getData(), out->getData() + nn * nb, 123.0f);
             km.apply();
             const float* o = out->getData();
             long bad = 0; long firstbad = -1;
-            for (uint32_t x = 0; x < n; x++) for (uint32_t y = 0; y < n; y++) {
+            for (uint32_t b = 0; b < nb; b++) for (uint32_t x = 0; x < n; x++) for (uint32_t y = 0; y < n; y++) {
                 float want;
-                if (!ykick) { int xs = (int)x + dd[y]; want = (xs >= 0 && xs < (int)n) ? data[(size_t)xs * n + y] : 0.0f; }
-                else { int ys = (int)y + dd[x]; want = (ys >= 0 && ys < (int)n) ? data[(size_t)x * n + ys] : 0.0f; }
-                if (!vh::bits_equal(o[(size_t)x * n + y], want)) { if (!bad) firstbad = x * n + y; bad++; }
+                const float* db = data.data() + b * nn;
+                if (!ykick) { int xs = (int)x + dd[(size_t)b * n + y]; want = (xs >= 0 && xs < (int)n) ? db[(size_t)xs * n + y] : 0.0f; }
+                else { int ys = (int)y + dd[(size_t)b * n + x]; want = (ys >= 0 && ys < (int)n) ? db[(size_t)x * n + ys] : 0.0f; }
+                if (!vh::bits_equal(o[b * nn + (size_t)x * n + y], want)) { if (!bad) firstbad = (long)(b * nn + x * n + y); bad++; }
             }
             M.ev("shift_applications");
-            M.ev("shift_cells_compared", (long)n * n);
+            if (nb > 1) M.ev("shift_applications_multibunch");
+            M.ev("shift_cells_compared", (long)(nn * nb));
             if (bad) {
-                vh::J d; d.i("n", n).i("order", it).s("axis", ykick ? "y" : "x").i("round", round).i("d_first_row", dd[0])
+                vh::J d; d.i("n", n).i("nb", nb).i("order", it).s("axis", ykick ? "y" : "x").i("round", round).i("d_first_row", dd[0])
                     .i("bad_cells", bad).i("first_bad", firstbad).n("got", o[firstbad]);
-                M.violation(std::string("C02:shift:") + (ykick ? "y" : "x") + ":order" + std::to_string(it),
+                M.violation(std::string("C02:shift:") + (ykick ? "y" : "x") + ":order" + std::to_string(it) + (nb > 1 ? ":train" : ""),
                             "whole-cell displacement is not a bit-exact move with zero inflow", d.str());
             }
         }
-        M.sig(vh::hmix(vh::hmix(n, it), ykick * 7 + flavour));
-        { vh::J s; s.s("class", "shift").i("n", n).i("order", it).s("axis", ykick ? "y" : "x").i("displacements", nrounds); M.sample(s.str()); }
+        M.sig(vh::hmix(vh::hmix(n * 4 + nb, it), ykick * 7 + flavour));
+        { vh::J s; s.s("class", "shift").i("n", n).i("nb", nb).i("order", it).s("axis", ykick ? "y" : "x").i("displacements", nrounds); M.sample(s.str()); }
     }
 }
 
@@ -150,13 +157,16 @@ static void mode_poly() {
         int it = 1 + (int)(c % 4);
         bool ykick = (c / 4) % 2;
         bool exactoff = (c / 8) % 2 == 0;    // offsets on a 2^-16 lattice: n/2+offset is exact in float
+        uint32_t nb = (c % 3 == 2) ? (uint32_t)r.range(2, 3) : 1;   // a third of the cases: trains with per-bunch fields
         {
-            std::ostringstream d; d << "poly n=" << n << " it=" << it << " axis=" << (ykick ? "y" : "x") << " exactoff=" << exactoff;
+            std::ostringstream d; d << "poly n=" << n << " nb=" << nb << " it=" << it << " axis=" << (ykick ? "y" : "x") << " exactoff=" << exactoff;
             M.begin_case(c, d.str());
         }
-        vh::set_grid(n, 1);
-        auto in = vh::make_ps(-6, 6, -6, 6, {1.0f});
-        auto out = vh::make_ps(-6, 6, -6, 6, {1.0f});
+        vh::set_grid(n, nb);
+        std::vector<integral_t> fill(nb, 1.0f / nb);
+        auto in = vh::make_ps(-6, 6, -6, 6, fill);
+        auto out = vh::make_ps(-6, 6, -6, 6, fill);
+        const size_t nn = (size_t)n * n;
         KickMap km(in, out, (SourceMap::InterpolationType)it, false,
                    ykick ? KickMap::Axis::y : KickMap::Axis::x, nullptr);
         // polynomial of degree < it in t = (k - n/2)/n  (values O(1)); separable factor g(other)
@@ -167,14 +177,15 @@ static void mode_poly() {
         auto P = [&](double k) { double t = (k - n / 2.0) / n; return co[0] + t * (co[1] + t * (co[2] + t * co[3])); };
         auto dP = [&](double k) { double t = (k - n / 2.0) / n; return (co[1] + t * (2 * co[2] + 3 * t * co[3])) / n; };
         float* di = in->getData();
-        for (uint32_t x = 0; x < n; x++) for (uint32_t y = 0; y < n; y++)
-            di[(size_t)x * n + y] = (float)((ykick ? P(y) * g[x] : P(x) * g[y]));
-        std::vector<float> off(n);
+        for (uint32_t bb = 0; bb < nb; bb++) for (uint32_t x = 0; x < n; x++) for (uint32_t y = 0; y < n; y++)
+            di[bb * nn + (size_t)x * n + y] = (float)((ykick ? P(y) * g[x] : P(x) * g[y]));
+        std::vector<float> off((size_t)n * nb);
         double amp = r.chance(0.5) ? 1.0 : n / 4.0;
-        for (uint32_t k = 0; k < n; k++) {
+        for (uint32_t k = 0; k < (uint32_t)(n * nb); k++) {
             double o = r.uni(-amp, amp);
             if (exactoff) o = std::round(o * 65536.0) / 65536.0;
             if (r.chance(0.05)) o = 0;
+            if (!ykick && k >= n) o = off[k % n];       // the x kick has one field for all bunches
             off[k] = (float)o;
         }
         std::vector<float> offcopy = off;
@@ -182,10 +193,10 @@ static void mode_poly() {
         km.apply();
         const float* o = out->getData();
         long checked = 0;
-        for (uint32_t row = 0; row < n; row++) {
-            double d = (double)offcopy[row];
+        for (uint32_t bb = 0; bb < nb; bb++) for (uint32_t row = 0; row < n; row++) {
+            double d = (double)offcopy[(size_t)bb * n + row];
             // what the map does in float: poffs = n/2 + offset
-            float poffs = (float)(n / 2) + offcopy[row];
+            float poffs = (float)(n / 2) + offcopy[(size_t)bb * n + row];
             double lost = std::fabs((double)poffs - ((double)(n / 2) + d));   // offset bits lost in that sum
             for (uint32_t k = 0; k < n; k++) {
                 double src = (double)k + d;
@@ -203,21 +214,21 @@ static void mode_poly() {
                 want = P(src) * gg;
                 scale = 0;
                 for (int j = 0; j < it; j++) scale = std::max(scale, std::fabs(P(fl + NODES[it][j]) * gg));
-                size_t idx = ykick ? (size_t)row * n + k : (size_t)k * n + row;
+                size_t idx = bb * nn + (ykick ? (size_t)row * n + k : (size_t)k * n + row);
                 double err = std::fabs((double)o[idx] - want);
                 double tol = 6e-6 * (scale + 1e-3) + 2 * std::fabs(dP(src) * gg) * lost;
                 checked++;
                 if (!M.within("poly.err_over_tol", err / tol, 1.0)) {
                     vh::J dj; dj.i("n", n).i("order", it).s("axis", ykick ? "y" : "x").i("row", row).i("cell", k)
                         .n("offset", d).n("got", o[idx]).n("want", want).n("tol", tol);
-                    M.violation(std::string("C02:poly:") + (ykick ? "y" : "x") + ":order" + std::to_string(it),
+                    M.violation(std::string("C02:poly:") + (ykick ? "y" : "x") + ":order" + std::to_string(it) + (nb > 1 ? ":train" : ""),
                                 "fractional displacement does not reproduce a polynomial of degree below the order", dj.str());
                 }
             }
         }
-        M.ev("poly_applications");
+        M.ev("poly_applications"); if (nb > 1) M.ev("poly_applications_multibunch");
         M.ev("poly_cells_compared", checked);
-        if (checked) M.sig(vh::hmix(vh::hmix(n, it), vh::hdata(offcopy.data(), 4 * n)));
+        if (checked) M.sig(vh::hmix(vh::hmix(n, it), vh::hdata(offcopy.data(), 4 * n * nb)));
         { vh::J s; s.s("class", "poly").i("n", n).i("order", it).s("axis", ykick ? "y" : "x").arr("offsets", offcopy, 6).i("cells_checked", checked); M.sample(s.str()); }
     }
 }
